@@ -52,6 +52,7 @@ type Solver struct {
 	dead     bool
 	lastErr  string
 	scopeDef []map[uint64]bool
+	context  func() string
 }
 
 func solverArgs(bin string) []string {
@@ -187,6 +188,9 @@ func (s *Solver) checkRaw() SatResult {
 		res = Unknown
 	}
 	s.stats.Nanos += int64(time.Since(t0))
+	if d := time.Since(t0); d > 3*time.Second && slowLog != nil {
+		slowLog(d, res, s.context)
+	}
 	switch res {
 	case Sat:
 		s.stats.Sat++
@@ -411,3 +415,6 @@ func tokenize(s string) []string {
 	}
 	return toks
 }
+
+// slowLog, when set, is called for queries slower than 3 s (diagnostics).
+var slowLog func(d time.Duration, r SatResult, ctx func() string)
